@@ -3,8 +3,11 @@ package props
 import (
 	"fmt"
 	"go/ast"
+	"go/types"
 	"math/big"
+	"os"
 	"sort"
+	"strings"
 
 	"golang.org/x/tools/go/packages"
 
@@ -25,7 +28,7 @@ import (
 // from a multiplier shows up as a shape and a bit.
 func C07adder(p *load.Program, run *report.Run) {
 	const rule = "builder-words"
-	run.Rule(rule, "NewAdder, NewSubtractor, the eight ordered comparators, NewEqComparator, NewNeqComparator (operand widths 1..3, result widths up to max+2, one bit for comparisons, both targets) and the multipliers NewArrayMultiplier, NewWallaceMultiplier, NewKaratsubaMultiplier with threshold 3, NewMultiplier (operand widths 1..4, 1..5 for Karatsuba, result widths up to nx+ny), and the unsigned dividers NewUDividerLong/Restoring/Array/NewUDivider on the Yao target (operands of 1..4 bits, every non-zero divisor; the GMW Goldschmidt divider is outside the interpreter), interpreted gate by gate from source: each result wire is driven exactly once and its truth table over the operand bits is that of the word-level operation (signed comparisons on operands of one width)")
+	run.Rule(rule, "NewAdder, NewSubtractor, the eight ordered comparators, NewEqComparator, NewNeqComparator (operand widths 1..3, result widths up to max+2, one bit for comparisons, both targets) and the multipliers NewArrayMultiplier, NewWallaceMultiplier, NewKaratsubaMultiplier with threshold 3, NewMultiplier (operand widths 1..4, 1..5 for Karatsuba, result widths up to nx+ny), and the unsigned dividers NewUDividerLong/Restoring/Array/NewUDivider on the Yao target (operands of 1..4 bits, every non-zero divisor), NewUDivider on the GMW target (the Goldschmidt divider with its reciprocal ROM, logarithmic shifters, Kogge-Stone adders and correction step; operands of 1..8 bits, thorough 1..10, every non-zero divisor), interpreted gate by gate from source: each result wire is driven exactly once and its truth table over the operand bits is that of the word-level operation (signed comparisons on operands of one width)")
 	pkg := p.ByPath[load.Module+"/compiler/circuits"]
 	if pkg == nil {
 		run.Undecided(rule, "compiler/circuits", "", "package not loaded")
@@ -202,8 +205,106 @@ func C07adder(p *load.Program, run *report.Run) {
 			run.OK(rule, key, p.Rel(top.Pos()), fmt.Sprintf("%d shapes, quotient and remainder for every non-zero divisor", shapes))
 		}
 	}
+	// the signed divider on both targets: quotient truncated towards zero with the sign of a*b, remainder
+	// |a| mod |b| (the behaviour the repository's annotated programs divi.mpcl and modi.mpcl fix), and the
+	// modulo-only form (no quotient vector)
+	if top := decls["NewIDivider"]; top != nil {
+		key := "compiler/circuits.NewIDivider"
+		shapes := 0
+		bad := ""
+		abs := func(v, n int) int {
+			if v>>(uint(n)-1)&1 == 1 {
+				return 1<<uint(n) - v
+			}
+			return v
+		}
+		q := func(x, y, nx, ny, nz int) int {
+			if y == 0 {
+				return -1
+			}
+			v := abs(x, nx) / abs(y, ny)
+			if (x>>(uint(nx)-1))&1 != (y>>(uint(ny)-1))&1 {
+				v = -v
+			}
+			return v & (1<<uint(nz) - 1)
+		}
+		r := func(x, y, nx, ny, nz int) int {
+			if y == 0 {
+				return -1
+			}
+			return abs(x, nx) % abs(y, ny)
+		}
+		for _, target := range []int64{-1, gmw} {
+			tname := "yao"
+			hi := 4
+			if target == gmw {
+				tname, hi = "gmw", bound(6, 8)
+			}
+			for n := 1; n <= hi; n++ {
+				shapes += 2
+				if why := builderShape2(pkg, decls, top, target, n, n, n, q, r); why != "" {
+					bad += fmt.Sprintf("%s target, %d-bit operands: %s; ", tname, n, why)
+				}
+				if why := builderShape3(pkg, decls, top, target, n, n, n, 0, q, r); why != "" {
+					bad += fmt.Sprintf("%s target, %d-bit operands, remainder only: %s; ", tname, n, why)
+				}
+			}
+		}
+		total += shapes
+		if bad != "" {
+			run.Violate(rule, key, p.Rel(top.Pos()), bad, nil)
+		} else {
+			run.OK(rule, key, p.Rel(top.Pos()), fmt.Sprintf("%d shapes, quotient and remainder for every non-zero divisor, both targets", shapes))
+		}
+	}
+	// the GMW target's divider: the Goldschmidt divider with its ROM seed, shifters and correction step
+	if top := decls["NewUDivider"]; top != nil {
+		key := "compiler/circuits.NewUDivider/gmw"
+		shapes := 0
+		bad := ""
+		for n := 1; n <= bound(8, 10); n++ {
+			shapes++
+			q := func(x, y, nx, ny, nz int) int {
+				if y == 0 {
+					return -1
+				}
+				return x / y
+			}
+			r := func(x, y, nx, ny, nz int) int {
+				if y == 0 {
+					return -1
+				}
+				return x % y
+			}
+			if why := builderShape2(pkg, decls, top, gmw, n, n, n, q, r); why != "" {
+				bad += fmt.Sprintf("gmw target, %d-bit operands: %s; ", n, why)
+			}
+		}
+		total += shapes
+		if bad != "" {
+			run.Violate(rule, key, p.Rel(top.Pos()), bad, nil)
+		} else {
+			run.OK(rule, key, p.Rel(top.Pos()), fmt.Sprintf("%d shapes, quotient and remainder for every non-zero divisor", shapes))
+		}
+	}
 	run.Count("builder-shapes", total)
 	run.Floor("builder-shapes", 150)
+	var src, mdl []string
+	for n := range methodsFromSource {
+		if _, also := methodsFromModel[n]; !also {
+			src = append(src, n)
+		}
+	}
+	for n, why := range methodsFromModel {
+		mdl = append(mdl, n+" ("+why+")")
+	}
+	sort.Strings(src)
+	sort.Strings(mdl)
+	if os.Getenv("MPCVERIF_DEBUG") != "" {
+		fmt.Fprintln(os.Stderr, "methods", src, mdl)
+	}
+	run.Count("compiler-methods-from-source", len(src))
+	run.OK(rule, "compiler/circuits.Compiler methods", "", fmt.Sprintf("interpreted from their source: %v; through the model because the interpreter cannot follow the source: %v", src, mdl))
 }
 
 func pkgConstIn(p *load.Program, rel, name string) (int64, bool) {
@@ -224,6 +325,8 @@ type gateWorld struct {
 	target int64
 	ops    map[int64]string
 	consts map[string]int64
+	// modelOnly: methods whose source the interpreter could not follow (their model in the hook is used)
+	modelOnly map[string]bool
 }
 
 func (g *gateWorld) read(v wv) (*big.Int, bool) {
@@ -250,6 +353,28 @@ func (g *gateWorld) drive(v wv, t *big.Int) string {
 func (g *gateWorld) hook(w *wInterp) func(name string, c *ast.CallExpr) (wv, bool) {
 	return func(name string, c *ast.CallExpr) (wv, bool) {
 		_, isMethod := c.Fun.(*ast.SelectorExpr)
+		if isMethod && sourceFirst[name] && !g.modelOnly[name] {
+			if fd := g.compilerMethod(c); fd != nil {
+				// the method's own source decides what it does; the model below stands in only where the
+				// interpreter cannot follow the source
+				saved := make(map[string]*big.Int, len(g.table))
+				for k, v := range g.table {
+					saved[k] = v
+				}
+				fresh := g.fresh
+				v, failed := g.fromSource(w, fd, c)
+				if !failed {
+					methodsFromSource[name] = true
+					return v, true
+				}
+				g.table, g.fresh = saved, fresh
+				if g.modelOnly == nil {
+					g.modelOnly = map[string]bool{}
+				}
+				g.modelOnly[name] = true
+				methodsFromModel[name] = fmt.Sprint(v)
+			}
+		}
 		switch name {
 		case "Wire":
 			if len(c.Args) == 0 {
@@ -421,60 +546,114 @@ func (g *gateWorld) hook(w *wInterp) func(name string, c *ast.CallExpr) (wv, boo
 			}
 		}
 		fd := g.decls[name]
-		if fd == nil || isMethod {
+		if isMethod {
+			fd = g.compilerMethod(c)
+		}
+		if fd == nil {
 			return nil, false
 		}
-		g.depth++
-		defer func() { g.depth-- }()
-		if g.depth > 8 {
-			return w.bad("builders nested deeper than 8"), true
+		v, failed := g.fromSource(w, fd, c)
+		if failed {
+			return w.bad("%s", v), true
 		}
-		sub := &wInterp{pkg: g.pkg}
-		sub.hook = g.hook(sub)
-		sub.push()
-		sub.set("cc.Params.Target", g.target, true)
-		i := 0
-		for _, fl := range fd.Type.Params.List {
-			for _, nm := range fl.Names {
-				if i < len(c.Args) {
-					if i == 0 && cx(fl.Type) == "*Compiler" {
-						sub.set(nm.Name, "cc", true)
-						sub.set(nm.Name+".Params.Target", g.target, true)
-					} else {
-						sub.set(nm.Name, w.expr(c.Args[i]), true)
-					}
-				}
-				i++
-			}
-		}
-		if w.fail != "" {
-			return nil, true
-		}
-		o := sub.stmts(fd.Body.List)
-		if sub.fail != "" {
-			return w.bad("%s: %s", name, sub.fail), true
-		}
-		if fd.Type.Results == nil {
-			return nil, true
-		}
-		if o.kind != "return" {
-			return w.bad("%s does not return", name), true
-		}
-		res := fd.Type.Results.List
-		if cx(res[len(res)-1].Type) != "error" {
-			// a helper that computes a value (min, max)
-			switch len(o.vals) {
-			case 1:
-				return o.vals[0], true
-			default:
-				return wtuple(o.vals), true
-			}
-		}
-		if o.err {
-			return "error", true
-		}
-		return nil, true
+		return v, true
 	}
+}
+
+var methodsFromSource = map[string]bool{}
+var methodsFromModel = map[string]string{}
+
+// sourceFirst: methods of Compiler that have a model in the hook and are interpreted from their source when
+// the interpreter can follow it.
+var sourceFirst = map[string]bool{"INV": true, "ID": true, "OR": true, "Pad": true, "ZeroPad": true, "ShiftLeft": true}
+
+// compilerMethod: the declaration of the method of *Compiler the call names, nil for anything else.
+func (g *gateWorld) compilerMethod(c *ast.CallExpr) *ast.FuncDecl {
+	sel, ok := c.Fun.(*ast.SelectorExpr)
+	if !ok {
+		return nil
+	}
+	fn, ok := g.pkg.TypesInfo.Uses[sel.Sel].(*types.Func)
+	if !ok || fn.Pkg() != g.pkg.Types {
+		return nil
+	}
+	sig := fn.Type().(*types.Signature)
+	if sig.Recv() == nil || !strings.HasSuffix(sig.Recv().Type().String(), "circuits.Compiler") {
+		return nil
+	}
+	for _, f := range g.pkg.Syntax {
+		for _, d := range f.Decls {
+			if fd, ok := d.(*ast.FuncDecl); ok && fd.Recv != nil && fd.Body != nil && g.pkg.TypesInfo.Defs[fd.Name] == types.Object(fn) {
+				return fd
+			}
+		}
+	}
+	return nil
+}
+
+// fromSource interprets the body of a builder or of a Compiler method on the call's arguments.  failed
+// reports that the interpreter could not follow it; the value is then the reason.
+func (g *gateWorld) fromSource(w *wInterp, fd *ast.FuncDecl, c *ast.CallExpr) (wv, bool) {
+	name := fd.Name.Name
+	g.depth++
+	defer func() { g.depth-- }()
+	if g.depth > 8 {
+		return "builders nested deeper than 8", true
+	}
+	sub := &wInterp{pkg: g.pkg}
+	sub.hook = g.hook(sub)
+	sub.push()
+	sub.set("cc.Params.Target", g.target, true)
+	if fd.Recv != nil && len(fd.Recv.List) == 1 && len(fd.Recv.List[0].Names) == 1 {
+		rn := fd.Recv.List[0].Names[0].Name
+		sub.set(rn, "cc", true)
+		sub.set(rn+".Params.Target", g.target, true)
+	}
+	i := 0
+	for _, fl := range fd.Type.Params.List {
+		for _, nm := range fl.Names {
+			if i < len(c.Args) {
+				if i == 0 && cx(fl.Type) == "*Compiler" {
+					sub.set(nm.Name, "cc", true)
+					sub.set(nm.Name+".Params.Target", g.target, true)
+				} else {
+					sub.set(nm.Name, w.expr(c.Args[i]), true)
+				}
+			}
+			i++
+		}
+	}
+	if w.fail != "" {
+		return w.fail, true
+	}
+	o := sub.stmts(fd.Body.List)
+	if sub.fail != "" {
+		return fmt.Sprintf("%s: %s", name, sub.fail), true
+	}
+	if fd.Type.Results == nil {
+		return nil, false
+	}
+	if o.kind != "return" {
+		return fmt.Sprintf("%s does not return", name), true
+	}
+	res := fd.Type.Results.List
+	if cx(res[len(res)-1].Type) != "error" {
+		// a helper that computes a value (min, max, a padded vector)
+		switch len(o.vals) {
+		case 1:
+			return o.vals[0], false
+		default:
+			return wtuple(o.vals), false
+		}
+	}
+	if len(o.vals) > 1 {
+		// (value, error)
+		return wtuple(o.vals), false
+	}
+	if o.err {
+		return "error", false
+	}
+	return nil, false
 }
 
 var gateOps map[int64]string
@@ -488,6 +667,12 @@ func builderShape(pkg *packages.Package, decls map[string]*ast.FuncDecl, top *as
 // vector of the same width (quotient and remainder).  A wanted value of -1 marks an input that is not
 // compared (division by zero).
 func builderShape2(pkg *packages.Package, decls map[string]*ast.FuncDecl, top *ast.FuncDecl, target int64, nx, ny, nz int, want, want2 func(x, y, nx, ny, nz int) int) string {
+	return builderShape3(pkg, decls, top, target, nx, ny, nz, nz, want, want2)
+}
+
+// builderShape3: nq is the width of the first result vector when there are two (0: the builder is asked for
+// the second result only).
+func builderShape3(pkg *packages.Package, decls map[string]*ast.FuncDecl, top *ast.FuncDecl, target int64, nx, ny, nz, nq int, want, want2 func(x, y, nx, ny, nz int) int) string {
 	nin := nx + ny
 	rows := uint(1) << uint(nin)
 	full := new(big.Int).Sub(new(big.Int).Lsh(big.NewInt(1), rows), big.NewInt(1))
@@ -526,7 +711,7 @@ func builderShape2(pkg *packages.Package, decls map[string]*ast.FuncDecl, top *a
 		for i := range z2 {
 			z2[i] = fmt.Sprintf("r%d", i)
 		}
-		vals = []wv{"cc", x, y, z, z2}
+		vals = []wv{"cc", x, y, z[:nq], z2}
 	}
 	var names []string
 	for _, fl := range top.Type.Params.List {
@@ -567,10 +752,14 @@ func builderShape2(pkg *packages.Package, decls map[string]*ast.FuncDecl, top *a
 			want func(x, y, nx, ny, nz int) int
 		}{names[len(names)-1], want2})
 	}
-	for _, ov := range outs {
+	for oi, ov := range outs {
 		want := ov.want
 		zv, _ := w.lookup(ov.name)
 		zs, ok := zv.([]wv)
+		nz := nz
+		if want2 != nil && oi == 0 {
+			nz = nq
+		}
 		if !ok || len(zs) != nz {
 			return "the result vector was replaced"
 		}
